@@ -845,8 +845,27 @@ class P(Prop):
                     "expect_tables": len(labels),
                 }
             )
-        # D. deliberately unsupported combinations
+        # C2. ordered pairs mixing a method that reads the proteins from the file with one that remaps through the
+        #     digest, in both orders: what one method needs (FASTA digest, input file) must not depend on its neighbours
         remap = [n for n in names if remaps_of_score_type(st_of(n))]
+        for _ in range(3 if tier == "quick" else 20):
+            a, b = rng.choice(noremap), rng.choice(remap)
+            for ms in ([a, b], [b, a]):
+                labels = {str(sm[n].get("label")).lower().replace(" ", "_"): 1 for n in ms}
+                cases.append(
+                    {
+                        "kind": "cli",
+                        "what": "several-mixed-remap",
+                        "methods": [{"name": n} for n in ms],
+                        "supply": list(INPUTS),
+                        "fasta": True,
+                        "perc_split": rng.random() < 0.5,
+                        "data": gen_data(rng),
+                        "expect": "tables",
+                        "expect_tables": len(labels),
+                    }
+                )
+        # D. deliberately unsupported combinations
         for n in rng.sample(names, 3 if tier == "quick" else 10):
             own = input_of_score_type(st_of(n))
             other = rng.choice([x for x in INPUTS if x != own])
